@@ -339,6 +339,13 @@ def run(chk):
         st = corr.correspond(chk, AREA, exe, ops, case_start=CASE_START, classify=classify, sig_of=sig_of)
         stats[name] = st
 
+    # 0. corpus of minimised past failures (the witnesses of KF-C07-1..3) runs first
+    import glob, os
+    ops = []
+    for f in sorted(glob.glob(os.path.join(core.VERIF, "corpus", "C07", "*.ops"))):
+        ops += [l.rstrip("\n") for l in open(f) if l.strip() and not l.startswith("#")]
+    if ops:
+        batch("corpus", ops)
     # 1. main workload: mixed IPv4/IPv6, no cross-family padded collision possible
     for r in range(1 if quick else 12):
         ops = []
